@@ -4,6 +4,7 @@
    whole history; `txs_of` lists the messages written to pipes in writing order; `ppend`/`pupend` is what is queued
    (buffer, then the blocked Send calls in blocking order); `sub a b`: a is an order-preserving subsequence of b. *)
 From MV Require Import Model.PairPush Model.PairPushOracle Proofs.PairPushProofs.
+From MV Require Import Model.Wakeup Proofs.WakeupProofs.
 Open Scope N_scope.
 
 (* ---- PAIR has at most one peer ---- *)
@@ -118,3 +119,27 @@ Theorem C02_recv_fifo : forall rq rxw m q w,
   up_take rq rxw = Some (m, q, w) -> m :: q ++ map snd w = rq ++ map snd rxw.
 Proof. exact up_take_fifo. Qed.
 Print Assumptions C02_recv_fifo.
+
+(* ---- inside PUSH's Send: the hand-over to the forwarding goroutine (Model/Wakeup.v).  The histories above take one
+   API call at a time; this is about ANY number of goroutines calling Send at once.  SendMsg enqueues outside the mutex
+   and then signals the condition variable unconditionally (re-checked on the source on every run: generated obligation
+   C02_gen_push_signal_unconditional).  For every interleaving of enqueues, signals, passes of the forwarding goroutine
+   and transmissions finishing, the goroutine is never asleep with a message queued and a pipe ready unless a caller is
+   about to signal it -- and from every such state the message does move on. ---- *)
+Theorem C02_push_no_lost_wakeup : forall cap pipes es s, wrun false (winit cap pipes) es = Some s -> lost s = false.
+Proof. exact no_lost_wakeup. Qed.
+Print Assumptions C02_push_no_lost_wakeup.
+
+Theorem C02_push_queued_message_moves : forall cap pipes es s, wrun false (winit cap pipes) es = Some s ->
+  0 < w_q s -> 0 < w_ready s ->
+  exists es' s', wrun false s es' = Some s' /\ w_q s' = w_q s - 1 /\ w_infl s' = w_infl s + 1.
+Proof. exact queued_message_moves. Qed.
+Print Assumptions C02_push_queued_message_moves.
+
+(* the variant "signal only if the queue holds at most one message" (seeded twice: it compiles and passes the test-suite)
+   loses the wake-up for ever: the witness is two simultaneous Sends on an idle socket *)
+Theorem C02_push_conditional_signal_refuted :
+  exists es s, wrun true (winit 8 1) es = Some s /\ lost s = true /\
+               (forall es' s', wrun true s es' = Some s' -> w_sender s' = Waiting /\ w_infl s' = 0 /\ 2 <= w_q s' /\ 0 < w_ready s').
+Proof. exact conditional_signal_refuted. Qed.
+Print Assumptions C02_push_conditional_signal_refuted.
